@@ -625,12 +625,12 @@ def sched_judge(tally, a, b, kind, start, ex, case_extra=None):
 
 
 def sched_config(task):
-    a, b, kind, bound = task
+    a, b, kind, bound, part, parts = task
     tally = Tally()
     start = start_state(kind, a, b)
     schedules = []
     longest = 0
-    for _idx, ex in explore(lambda ch: sched_run(a, b, start, ch, False), bound):
+    for _idx, ex in explore(lambda ch: sched_run(a, b, start, ch, False), bound, part, parts):
         tally.c["executions"] += 1
         tally.c["sched_executions"] += 1
         tally.c["sched_steps"] += len(ex.events)
@@ -643,7 +643,7 @@ def sched_config(task):
     every = REPLAY_SAMPLE_EVERY
     picks = (
         [i for i in range(n - n % every) if i % every == W.seed % every] if n >= every
-        else [W.seed % n]
+        else [W.seed % n] if n else []
     )
     for i in picks:
         choices, first = schedules[i]
@@ -656,7 +656,7 @@ def sched_config(task):
                     " directory is not reproducible"
                 )
                 raise HarnessError(msg)
-    if kind == "empty" and a == b:
+    if kind == "empty" and a == b and part == 0:
         ch, _ = schedules[min(3, n - 1)]
         tally.samples.append({
             "engine": "SCHED", "hash_seed": W.mode, "callers": [W.names[a], W.names[b]],
@@ -666,14 +666,24 @@ def sched_config(task):
         })
     out = tally.export()
     out["config"] = {"pair": [W.names[a], W.names[b]], "start": kind, "bound": bound,
-                     "schedules": n, "longest_schedule_steps": longest}
+                     "schedules": n, "longest_schedule_steps": longest, "slices": parts}
     return out
 
 
 def sched_tasks():
     pairs = [(0, 0), (2, 2), (0, 1), (2, 3), (0, 4), (2, 5)]
     bound = BOUND[W.tier]
-    return [(a, b, kind, bound) for a, b in pairs for kind in START_KINDS]
+    # the same-expression pair (e1 || e1) gets one preemption more than the tier's bound
+    # in quick (races that need two switches, e.g. both callers discarding a torn entry)
+    tasks = []
+    for a, b in pairs:
+        for kind in START_KINDS:
+            bd = max(bound, 2) if (a, b) == (0, 0) else bound
+            # a bound-2 tree has thousands of executions: cut it into slices for the pool
+            parts = (8 if W.tier == "quick" else 4) if bd >= 2 else 1
+            tasks.extend((a, b, kind, bd, part, parts) for part in range(parts))
+    tasks.sort(key=lambda t: -t[3])  # big trees first (stable: otherwise in the order above)
+    return tasks
 
 
 # ================================================================ engine CRASH
@@ -996,9 +1006,18 @@ def main_job(job: dict) -> dict:
                 pool.close()
                 pool.join()
         summary["sched"] = {"preemption_bound": BOUND[W.tier], "configs": []}
+        merged: dict = {}
         for res in sched_res:
             merge(total, res)
-            summary["sched"]["configs"].append(res["config"])
+            cfg = res["config"]
+            key = (tuple(cfg["pair"]), cfg["start"])
+            if key not in merged:
+                merged[key] = dict(cfg)
+            else:
+                merged[key]["schedules"] += cfg["schedules"]
+                merged[key]["longest_schedule_steps"] = max(
+                    merged[key]["longest_schedule_steps"], cfg["longest_schedule_steps"])
+        summary["sched"]["configs"] = list(merged.values())
         summary["sched"]["executions"] = total.c["sched_executions"]
         summary["crash"] = {"configs": []}
         for res in crash_res:
